@@ -56,10 +56,7 @@ func NewSolver(kind string, timeoutMs int) (*Solver, error) {
 	var cmd *exec.Cmd
 	switch kind {
 	case "z3":
-		cmd = exec.Command("/usr/bin/z3", "-in", "-smt2")
-		if os.Getenv("VF_Z3T") != "" {
-			cmd = exec.Command("/usr/bin/z3", "-in", "-smt2", fmt.Sprintf("-t:%d", timeoutMs))
-		}
+		cmd = exec.Command("/usr/bin/z3", "-in", "-smt2", fmt.Sprintf("-t:%d", timeoutMs))
 	case "z3-new":
 		cmd = exec.Command("z3-new", "-in", "-smt2", fmt.Sprintf("-t:%d", timeoutMs))
 	case "cvc5":
